@@ -8,6 +8,7 @@ mod fx_selfcheck;
 mod mutate;
 mod params;
 mod rules;
+mod synth;
 mod trace;
 mod vtxs;
 
@@ -17,6 +18,7 @@ fn main() {
         "fixtures-selfcheck" => fx_selfcheck::run(&args),
         "phase1-trace" => trace::run(&args),
         "validate-txs-trace" => vtxs::run(&args),
+        "phase1-synth" => synth::run(&args),
         other => pv_core::die(&format!("unknown sub-command {other}")),
     }
 }
